@@ -1,6 +1,7 @@
 import P2P.Drv.Proto
 import P2P.Drv.Psize
 import P2P.Model.ChargeGuard
+import P2P.Model.ChargeTable
 
 namespace P2P.Drv.ChargeGuardD
 open P2P P2P.Drv P2P.ChargeGuard
@@ -13,6 +14,9 @@ instance : RNum Float where
 def handlers : List (String × Handler) := [
   ("charge.nonint", fun a => match a with
     | [c, tol] => encBool (nonInteger (PsizeD.decF c) (PsizeD.decF tol))
+    | _ => str "bad-op"),
+  ("charge.formalname", fun a => match a with
+    | [n] => intStr (P2P.ChargeTable.formalOfName (unhex n))
     | _ => str "bad-op")
 ]
 
